@@ -86,6 +86,7 @@ SUnsafeByte(n)   == SOp("UnsafeByte", <<>>, n, <<>>, <<>>)
 SSafeBytes(b)    == SOp("SafeBytes", b, 0, <<>>, <<>>)
 SUnsafeBytes(b)  == SOp("UnsafeBytes", b, 0, <<>>, <<>>)
 SWrite(b)        == SOp("Write", b, 0, <<>>, <<>>)
+SWriteStr(b)     == SOp("WriteString", b, 0, <<>>, <<>>)      \* io.WriteString(state, s) -> pp.WriteString
 SPrint(ts)       == SOp("Print", <<>>, 0, <<>>, ts)
 SPrintf(f, ts)   == SOp("Printf", <<>>, 0, f, ts)
 SPanic(t)        == SOp("Panic", <<>>, 0, <<>>, <<t>>)
@@ -321,7 +322,7 @@ RunOp(ps, op, verb, a) ==
        [] op.o = "UnsafeBytes"  -> unsafely(LAMBDA s : W(s, op.b))
        [] op.o = "UnsafeRune"   -> unsafely(LAMBDA s : WRune(s, op.n))
        [] op.o = "UnsafeByte"   -> unsafely(LAMBDA s : WByte(s, op.n))
-       [] op.o = "Write"        -> unsafely(LAMBDA s : W(s, op.b))            \* pp.Write / pp.WriteString
+       [] op.o \in {"Write", "WriteString"} -> unsafely(LAMBDA s : W(s, op.b))     \* pp.Write / pp.WriteString
        \* the hook's p.UnsafeString(err.Error()): Error() may panic
        [] op.o = "UnsafeErrText" -> LET e == op.ts[1] IN
                                     IF e.pan # <<>> THEN [Call(ps, "Error", e, verb) EXCEPT !.exc = e.pan]
